@@ -85,8 +85,11 @@ def opt(v):
 
 def main():
   rep = vlib.Report(PROP, "proof")
-  info = vlib.build_obligations(PROP)
-  errs = rep.obligations(info, "coqc -Q coq/theories QV coq/theories/Properties/C05.v")
+  from translate import lingen
+  lgen = lingen.emit(vlib.GEN)
+  LK = os.path.join(vlib.COQ, "theories", "Link")
+  info = vlib.build_obligations(PROP, gen_files=[lgen], extra_files=[os.path.join(LK, "LinLink.v"), os.path.join(LK, "LinAutoLink.v")])
+  errs = rep.obligations(info, "python3 tools/translate/lingen.py coq/gen && coqc coq/gen/LinGen.v && coqc coq/theories/Link/LinLink.v coq/theories/Link/LinAutoLink.v && coqc coq/theories/Properties/C05.v")
   for e in errs:
     rep.violation("obligation-" + os.path.basename(e["file"]), "proof obligation no longer checks: " + e["error"][-400:],
                   {"file": e["file"]}, no_input=True)
